@@ -18,7 +18,7 @@
    Which property each theorem belongs to is noted at the theorem. *)
 From Coq Require Import NArith ZArith List Bool Sorted.
 From JLS Require Import Generated CrcDefs Spec Format WriteOnce WriteOnceProofs WmRaw WmCore WmTs WmFsr WriterModel WmProofs
-  WmWriteOnce DefsModel MrbModel TwrModel TwrProofs BitCopyModel FsrPackModel PyramidModel TsModel TsProofs
+  WmWriteOnce DefsModel MrbModel TwrModel TwrProofs BitCopyModel FsrPackModel FsrPackProofs PyramidModel TsModel TsProofs
   RefineLog RefineFsr RefinePyr RefinePyr2 RefineBits2 RefineTs RefineProg RefineExamples SafeProofs5
   ComposeGuards ComposeFsr ComposeC01 ComposeAlign ComposeTop ComposeSpec ComposeTs ComposeExamples.
 Import ListNotations.
@@ -237,6 +237,7 @@ Theorem compose_C05_fsr_index_targets_partial :
          end).
 Proof. exact cmp_prog_index_targets_top. Qed.
 Print Assumptions compose_C05_fsr_index_targets_partial.
+(* its hypotheses are those of compose_C01_model_end_to_end_partial without the fill value: satisfiable by compose_C01_example *)
 
 (* COMPONENT level (any state x0 satisfying the writer's invariant rf_fresh, the calls on one FSR signal, the close),
    where refine_fsr_pyramid also gives ALL chunks appended (rf_out x = rev cs ++ rf_out x0) and the track's head
@@ -405,6 +406,70 @@ Theorem compose_C01_no_block_omitted : forall d ops, 8 < dt_bits (sg_dtype d) ->
          (py_blocks (py_plan (dt_bits (sg_dtype d) <=? 8) (py_sdf (rf_pd d)) 0 (rf_script d rf_bs0 ops))).
 Proof. exact cmp_no_omission_lemma. Qed.
 Print Assumptions compose_C01_no_block_omitted.
+
+(* WHOLE WINDOWS when no block is omitted (one of the 15 data types wider than 8 bits, no omission requested; the two
+   extra guards are FsrPackModel's: a block has fewer than 2^32 bits, a call fewer than 2^32 samples).  Following the index
+   block by block - rd_fsr_data0 at the first sample of block i, from any foreign cache and after any earlier reads -
+   the reader finds, for EVERY block i of the stream, a stored DATA chunk whose image under rf_psi is the offset of a
+   DATA chunk of the writer model's log with payload = payload header (timestamp first + i * spd, count) ++ Spec.pack of
+   the block; the list L of (timestamp, count, data bytes) so assembled is FsrPackModel's block list, and the copy
+   loop of jls_core_fsr over L returns Spec.rd_window for EVERY window (any alignment inside bytes and blocks, spanning
+   any number of blocks), PARAMETER_INVALID exactly when Spec says the window is out of range; total = Spec.rd_length. *)
+Theorem compose_C01_whole_windows_partial :
+  forall (summ1 : N -> list N -> wm_sentry) (summN : bool -> list wm_sentry -> wm_sentry)
+         (d0 d : sigdef) (pos0 : Z) (p1 p2 : list wop) (stf : py_wr),
+  (0 < pos0)%Z -> sg_id d <> 0 -> sg_type d = JLS_SIGNAL_TYPE_FSR -> sg_eps d * sg_sdf d < 4294967296 ->
+  let sid := sg_id d in
+  let w := dt_bits (sg_dtype d) in
+  let pd := rf_pd d in
+  let p := p1 ++ WSig d0 :: p2 in
+  Forall (rp_ok sid) p ->
+  Forall (fun o => match o with WSig d' => sg_id d' <> sid | _ => True end) p1 ->
+  snd (wm_api_signal_def (fst (wm_steps summ1 summN wm_api_open p1 [])) d0) = 0 -> wm_sig_align d0 = Some d ->
+  let ops := rp_proj sid p2 in
+  py_srun pd (w <=? 8) (rf_t0 ops) pos0 (rf_script d rf_bs0 ops) = PyOk stf ->
+  In (sg_dtype d) [JLS_DATATYPE_I4; JLS_DATATYPE_I8; JLS_DATATYPE_I16; JLS_DATATYPE_I24; JLS_DATATYPE_I32; JLS_DATATYPE_I64;
+                   JLS_DATATYPE_U1; JLS_DATATYPE_U4; JLS_DATATYPE_U8; JLS_DATATYPE_U16; JLS_DATATYPE_U24; JLS_DATATYPE_U32;
+                   JLS_DATATYPE_U64; JLS_DATATYPE_F32; JLS_DATATYPE_F64] ->
+  8 < w -> cmp_no_omit ops ->
+  sg_spd d * w + 7 < 4294967296 ->
+  Forall (fun c => N.of_nat (length (snd c)) < 4294967296) (rf_calls ops) ->
+  let log := wm_st_log (fst (wm_run_full summ1 summN p)) in
+  let offs := map rc_off (filter (rf_mine d) (rf_chunks log)) in
+  let BLKS := rf_blocks d rf_bs0 ops in
+  let g := fold_left (fun g c => fsr_write g (fst c) (snd c)) (rf_calls ops) (new_sig d) in
+  let L := rb_fp_blocks w (sg_spd d) (rf_t0 ops) 0 BLKS in
+  (forall sig cache starts i blk,
+     (0 <= sig < 256)%Z -> (cc_meta cache <> 4096 + sig \/ cc_off cache = 0)%Z ->
+     nth_error BLKS i = Some blk ->
+     let t := (rf_t0 ops + Z.of_nat i * py_spd pd)%Z in
+     nth_error L i = Some (t, N.of_nat (length blk), pack w blk) /\
+     exists cd c,
+       fst (py_rd_data0 pd (pw_disk stf) (pw_heads stf) sig (py_reads pd (pw_disk stf) (pw_heads stf) sig cache starts) t) = PyOk (PyStored cd) /\
+       pc_ts cd = t /\ pc_count cd = Z.of_nat (length blk) /\
+       In c (rf_chunks log) /\ rc_off c = rf_psi offs pos0 (pc_off cd) /\ rc_off c <> 0 /\
+       rc_tag c = JLS_TAG_TRACK_FSR_DATA /\ rc_meta c = wm_meta sid 0 /\
+       rc_pay c = wm_payload_header t (N.of_nat (length blk)) w ++ pack w blk) /\
+  fp_total L = rd_length g /\
+  forall start count, 0 < count ->
+    match rd_window g start count with
+    | Some win => fp_rd_blocks w (rd_offset g) L (Z.of_N start) (Z.of_N count) (repeat 0 (N.to_nat ((count * w + 7) / 8))) = RD_ok win
+    | None => forall dst, fp_rd_blocks w (rd_offset g) L (Z.of_N start) (Z.of_N count) dst = RD_param_invalid
+    end.
+Proof. exact cmp_c01_whole_windows_top. Qed.
+Print Assumptions compose_C01_whole_windows_partial.
+
+Example compose_C01_whole_windows_example :
+  sg_eps cx_d * sg_sdf cx_d < 4294967296 /\
+  In (sg_dtype cx_d) fp_dt_list /\ 8 < dt_bits (sg_dtype cx_d) /\ cmp_no_omit cx_ops /\
+  sg_spd cx_d * dt_bits (sg_dtype cx_d) + 7 < 4294967296 /\
+  Forall (fun c => N.of_nat (length (snd c)) < 4294967296) (rf_calls cx_ops) /\
+  length (rb_fp_blocks 16 64 1000 0 (rf_blocks cx_d rf_bs0 cx_ops)) = 18%nat /\
+  rd_window cx_g 60 6 = Some [187; 0; 190; 0; 193; 0; 196; 0; 199; 0; 202; 0] /\
+  fp_rd_blocks 16 1000 (rb_fp_blocks 16 64 1000 0 (rf_blocks cx_d rf_bs0 cx_ops)) 60 6 (repeat 0 12) =
+    RD_ok [187; 0; 190; 0; 193; 0; 196; 0; 199; 0; 202; 0].
+Proof. exact cmp_c01_whole_example. Qed.
+Print Assumptions compose_C01_whole_windows_example.
 
 (* the Spec side of the chain: under C13's guard df_prog_ok (refine_run_accept needs it: Spec.wstep does not model the
    refusal of jls_core_signal_def_align) the state g above is the signal's state in Spec.spec_of of the WHOLE program:
